@@ -5,6 +5,9 @@ package eventloop
 
 import (
 	"context"
+	"runtime"
+	"sync/atomic"
+	"time"
 	"fmt"
 	"io"
 	"sort"
@@ -663,3 +666,63 @@ func TestC14RaceConcurrent(t *testing.T) {
 
 var _ = sort.Ints
 var _ = strings.Join
+
+// ---------------------------------------------------------------------------------------------------------------
+// 4. wake-up of the sleeping loop
+
+// wakeCase: one producer goroutine adds ONE event at a time to a running loop and waits until the handler has seen it
+// before adding the next, with a small generated spin between the two (to sweep the producer's AddEvent over the
+// consumer's "queue is empty -> go to sleep" window). The queue never holds more than one event, nothing else is added:
+// every event must be handled. An event that stays unhandled although the loop runs is "lost" in the sense of C14 for
+// as long as nobody adds another one.
+type wakeCase struct {
+	Iters   int
+	MaxSpin int
+	Cap     int
+}
+
+type wakeEv int64
+type pokeEv struct{}
+
+var wakeSink atomic.Int64
+
+func wakeProp(c wakeCase) common.Result {
+	el := New(logging.NewWithDest(io.Discard, "c14"), uint(c.Cap))
+	var handled atomic.Int64
+	Register(el, func(e wakeEv) { handled.Store(int64(e)) })
+	ctx, cancel := context.WithCancel(context.Background())
+	done := make(chan struct{})
+	go func() { el.Run(ctx); close(done) }()
+	defer func() { cancel(); <-done }()
+	const patience = 3 * time.Second // a running loop handles an event within microseconds
+	for i := int64(1); i <= int64(c.Iters); i++ {
+		for s := int64(0); s < i%int64(c.MaxSpin+1); s++ {
+			wakeSink.Add(1)
+		}
+		el.AddEvent(wakeEv(i))
+		start := time.Now()
+		for handled.Load() != i {
+			if time.Since(start) > patience {
+				// slow machine, or is the loop asleep on a non-empty queue? Another event wakes a sleeping loop.
+				el.AddEvent(pokeEv{})
+				t1 := time.Now()
+				for handled.Load() != i && time.Since(t1) < patience {
+					runtime.Gosched()
+				}
+				if handled.Load() == i {
+					return common.Fail("lost-wakeup", "cap=%d: event %d was added to a running loop with an empty queue and was not handled for %v; it was handled %v after ANOTHER event was added: the loop slept although an event was pending (the wake-up signal of the first AddEvent was lost)", c.Cap, i, patience, time.Since(t1))
+				}
+				return common.Fail("event-never-handled", "cap=%d: event %d was added to a running loop with an empty queue and was not handled within %v, not even after another event was added", c.Cap, i, 2*patience)
+			}
+			runtime.Gosched()
+		}
+	}
+	return common.OK(true, "", "wake-up ping-pong")
+}
+
+// TestC14RaceWakeup: every event added to an idle running loop is handled without the help of later events.
+func TestC14RaceWakeup(t *testing.T) {
+	common.Check(t, c14, "TestC14RaceWakeup", 12, 200, func(rt *rapid.T) wakeCase {
+		return wakeCase{Iters: rapid.IntRange(2000, 6000).Draw(rt, "iters"), MaxSpin: rapid.SampledFrom([]int{0, 50, 200, 400, 1000}).Draw(rt, "spin"), Cap: rapid.SampledFrom([]int{1, 2, 100}).Draw(rt, "cap")}
+	}, wakeProp)
+}
